@@ -117,9 +117,9 @@ def labelSuffixSrc : Bytes := [34, 36, 105, 58, 34]
 /-- xzgrep.in  `case $i in (`PATTERNS`)`: names that need escaping
 ```
 *'
-'* | *'&'* | *'\'*
+'* | *'&'* | *'\'* | *'|'*
 ``` -/
-def labelGuardPats : Bytes := [42, 39, 10, 39, 42, 32, 124, 32, 42, 39, 38, 39, 42, 32, 124, 32, 42, 39, 92, 39, 42]
+def labelGuardPats : Bytes := [42, 39, 10, 39, 42, 32, 124, 32, 42, 39, 38, 39, 42, 32, 124, 32, 42, 39, 92, 39, 42, 32, 124, 32, 42, 39, 124, 39, 42]
 
 /-- xzgrep.in  printf format feeding the label sed
 ```
